@@ -209,6 +209,10 @@ fn hostile_path(r: &mut Rng64) -> String {
     if r.chance(1, 8) {
         s = format!("/abs{}/{}", r.below(3), s);
     }
+    // Windows-style separators: an ordinary character on this platform, and it must stay one
+    if r.chance(1, 6) {
+        s = s.replace('/', "\\");
+    }
     s
 }
 
